@@ -212,6 +212,15 @@ def explore(chk, g, n_seeds, per_seed, tag, sweep=False):
     for _ in range(n_seeds):
         cases.append(("garbage", bytes(r.randrange(256) for _ in range(r.choice([0, 1, 2, 3, 4, 5, 8, 19, 20, 21, 40, 100])))))
         cases.append(("zeros", bytes(r.choice([1, 4, 5, 19, 20, 24, 40, 64]))))
+    if sweep:
+        # deeply nested Grouped AVPs (Failed-AVP, code 279): the decoder recurses once per nesting level
+        for depth in (10, 60, 150, 250, 320, 340, 400, 700, 1500, 4000):
+            for code, flags in ((279, 0x40), (260, 0x40), (999999, 0x00)):
+                inner = b""
+                for _ in range(depth):
+                    inner = code.to_bytes(4, "big") + bytes([flags]) + (8 + len(inner)).to_bytes(3, "big") + inner
+                hdr = b"\x01" + (20 + len(inner)).to_bytes(3, "big") + b"\x80\x00\x01\x3c" + bytes(12)
+                cases.append(("deep-nesting=%d" % depth, hdr + inner))
     seen, uniq = set(), []
     for kind, w in cases:
         if w not in seen:
@@ -220,8 +229,12 @@ def explore(chk, g, n_seeds, per_seed, tag, sweep=False):
     counter = LoopCounter()
     old = signal.signal(signal.SIGALRM, _alarm)
     try:
-        out_m = core.run_driver(["loadmsg %s" % (w.hex() or "-") for _, w in uniq])
-        out_a = core.run_driver(["load %s" % (w[20:].hex() or "-") for _, w in uniq])
+        # canonical text of nested Grouped AVPs is quadratic in the depth: very deep inputs go to the implementation
+        # only (oracle: terminates, library error or messages); the model is compared up to depth 400
+        def too_deep(kind):
+            return kind.startswith("deep-nesting") and int(kind.split("=")[1]) > 400
+        out_m = core.run_driver(["loadmsg %s" % ("-" if too_deep(k) else (w.hex() or "-")) for k, w in uniq])
+        out_a = core.run_driver(["load %s" % ("-" if too_deep(k) else (w[20:].hex() or "-")) for k, w in uniq])
         for (kind, w), om, oa in zip(uniq, out_m, out_a):
             for api, fn, data, model, can in (("DiameterMessage.load", DiameterMessage.load, w, om, c02.canon_msgs),
                                              ("DiameterAVP.load", DiameterAVP.load, w[20:], oa,
@@ -233,8 +246,12 @@ def explore(chk, g, n_seeds, per_seed, tag, sweep=False):
                 chk.case(inp, kind="%s:%s:%s" % (api.split(".")[0][8:], kind.split("=")[0], tag))
                 m = canon_model(model.rstrip())
                 i2 = impl.rstrip() if impl.startswith("ok") else impl
-                if m == "unmodelled":
+                if too_deep(kind):
+                    chk.count("impl-only:deep-nesting")
+                elif m == "unmodelled":
                     chk.count("unmodelled")
+                elif kind.startswith("deep-nesting") and int(kind.split("=")[1]) > 100 and i2 == "err:lib" and m.startswith("ok"):
+                    chk.count("depth-limit-reached")      # an implementation-defined nesting limit, reported as a library error
                 elif i2 != m:
                     chk.corr_break(api, inp, i2[:300], m[:300])
                 # oracle (specification): terminates within the bound, returns or raises a library error
@@ -242,8 +259,10 @@ def explore(chk, g, n_seeds, per_seed, tag, sweep=False):
                     chk.violation("decoder does not terminate within the step bound", inp, "terminates in <= len+64 loop iterations", "hang after %d iterations" % iters)
                 elif impl.startswith("err:std"):
                     chk.violation("decoder leaks a non-library exception", inp, "library error or messages", impl)
-                elif iters > len(data) // 8 + len(data) // 20 + 2:
-                    chk.violation("decoder exceeds the step bound", inp, len(data) // 8 + len(data) // 20 + 2, iters)
+                elif iters > 2 * (len(data) // 8) + 2 * (len(data) // 20) + 4:
+                    # `while` tests executed: one per iteration plus the final failing test of each loop; loops = 1 per
+                    # message and per Grouped node, iterations = objects <= len/8 AVPs + len/20 messages (theorem output_bounded)
+                    chk.violation("decoder exceeds the step bound", inp, 2 * (len(data) // 8) + 2 * (len(data) // 20) + 4, iters)
                 chk.count("outcome:" + (impl.split(" ")[0] if impl.startswith("ok") else impl.split(":")[0] + ":" + impl.split(":")[1] if ":" in impl else impl))
     finally:
         signal.signal(signal.SIGALRM, old)
